@@ -573,6 +573,37 @@ func runC04(c *h.Ctx) {
 		}
 		c.Sample("near-miss", map[string]string{"input": "\"\\x4\x11\"", "rule": "escape"})
 	}
+	// near-miss by construction: a numeric literal with an identifier glued
+	// to it is malformed - also when the identifier begins with an escape
+	// (which may spell a keyword: to, starts, like_regex, is)
+	{
+		nums := []string{"1", "0x1F", "1.5e0", "1_0", "0b1", "7.", ".5", "1e3", "0o7", "10"}
+		glued := []struct{ form, word string }{{"$[%s%s 2]", "to"}, {"$ ? (%s%s with \"1\")", "starts"}, {"$ ? (%s%s \"^1\")", "like_regex"}, {"$[%s%s last]", "to"}, {"$.a == %s%s.b", "x"}, {"$[0, %s%s 3]", "to"}, {"(%s == %s)%s unknown", "is"}}
+		k := 0
+		for _, n := range nums {
+			for _, g := range glued {
+				for v := 0; v < 16; v++ {
+					k++
+					if !c.Mine(k) {
+						continue
+					}
+					w := escapedKeyword(g.word, v)
+					if !strings.HasPrefix(w, "\\") {
+						// the escape must come first: a letter right after the number is the ordinary trailing-junk case
+						w = "\\u{" + fmt.Sprintf("%x", g.word[0]) + "}" + g.word[1:]
+					}
+					var in string
+					if strings.Count(g.form, "%s") == 3 {
+						in = fmt.Sprintf(g.form, n, n, w)
+						continue // (a parenthesis separates: not glued)
+					}
+					in = fmt.Sprintf(g.form, n, w)
+					check(in, "number")
+				}
+			}
+		}
+		c.Sample("near-miss", map[string]string{"input": "$[1\\u0074o 2]", "rule": "number"})
+	}
 	// near-miss by construction: a like_regex flag character outside i s m x q,
 	// among them the code points whose low byte is that of a valid flag
 	{
@@ -636,6 +667,13 @@ func runC04(c *h.Ctx) {
 		for k := 0; k <= len(txt); k++ {
 			check(txt[:k]+"\x00"+txt[k:], "nul-byte")
 			check(txt[:k]+"\xff"+txt[k:], "invalid-utf8")
+			// (one byte >= 0x80 inserted into valid UTF-8 leaves a stray
+			// continuation or an unfinished sequence, wherever it lands)
+			for _, b := range []string{"\x80", "\xbf", "\xc0", "\xc2", "\xe0", "\xf0", "\xf8", "\x81"} {
+				if (k+i)%4 == 0 {
+					check(txt[:k]+b+txt[k:], "invalid-utf8")
+				}
+			}
 		}
 		if i == 0 {
 			c.Sample("prefix/deletion/NUL-insertion of", txt)
